@@ -87,6 +87,10 @@ def run_ops(pname, ops):
                                 for _ in range(100000):
                                     cur.append([])
                                     cur = cur[0]
+                            elif kind_bad == 'excobj':
+                                badval = KeyError('job 7 failed')       # the handler RETURNS an exception object as its value
+                            elif kind_bad == 'excobj2':
+                                badval = asyncio.TimeoutError()
                             else:
                                 badval = {1, 2}
                             try:
